@@ -72,6 +72,11 @@ double Quantile_Gauss(double p, double mu, double sigma)
 
 double PDF_Gauss_2D(double x, double y, std::pair<double, double>& mean, std::pair<double, double>& sigma)
 {
+	if(sigma.first <= 0.0 || sigma.second <= 0.0)
+	{
+		std::cerr << "Error in libphysica::PDF_Gauss_2D(): The standard deviations are not positive." << std::endl;
+		std::exit(EXIT_FAILURE);
+	}
 	double x_diff = x - mean.first;
 	double y_diff = y - mean.second;
 	return 0.5 / M_PI / sigma.first / sigma.second * std::exp(-0.5 * (x_diff * x_diff / sigma.first / sigma.first + y_diff * y_diff / sigma.second / sigma.second));
